@@ -324,8 +324,9 @@ func run3(c *hlib.Ctx) {
 		st = &stub3{sphReply: c.Rng.Intn(2) == 0}
 		tc = model3d.TransformCollider(t, st)
 		got1 := tc.SphereCollision(ctr, rad)
-		c.Emit(fmt.Sprintf("c05 sphin3 %s %s %s %s", x.tokens(3), p3s(ctr), rs(rad), bstr(st.sphReply)),
-			p3s(st.sphC[0])+" "+rs(st.sphR[0])+" "+bstr(got1))
+		if seen, ok := sphSeen3(c, st, []*xf{x}, ctr, rad, got1); ok {
+			c.Emit(fmt.Sprintf("c05 sphin3 %s %s %s %s", x.tokens(3), p3s(ctr), rs(rad), bstr(st.sphReply)), seen)
+		}
 		lo, hi := tc.Min(), tc.Max()
 		c.Emit(fmt.Sprintf("c05 cbounds3 %s %s %s", x.tokens(3), p3s(st.Min()), p3s(st.Max())), p3s(lo)+" "+p3s(hi))
 	}
@@ -346,6 +347,52 @@ func run3(c *hlib.Ctx) {
 		col, cname := g.collider3()
 		g.emitColl3(x, col, cname, g.ray3(col))
 	}
+}
+
+// sphereOutside3 draws a query sphere whose centre lies OUTSIDE the bounding box of the collider, at a
+// distance d from one face (the other coordinates inside the box or slightly beyond it), with a radius
+// between d/2 and 4d: spheres that just miss, just reach and clearly overlap the box from outside,
+// at several scales (d = 2^-3 .. 2^2).
+func (g *gen) sphereOutside3(col model3d.Collider) (model3d.Coord3D, float64) {
+	lo, hi := col.Min(), col.Max()
+	q := g.inBox3(lo, hi).Array()
+	d := math.Ldexp(1, g.c.Rng.Intn(6)-3)
+	ax := g.c.Rng.Intn(3)
+	if g.c.Rng.Intn(2) == 0 {
+		q[ax] = hi.Array()[ax] + d
+	} else {
+		q[ax] = lo.Array()[ax] - d
+	}
+	if g.c.Rng.Intn(4) == 0 { // off a second face too (edge / corner region)
+		ax2 := (ax + 1 + g.c.Rng.Intn(2)) % 3
+		q[ax2] = hi.Array()[ax2] + d/2
+	}
+	rad := d * []float64{0.5, 1, 1.125, 1.25, 1.5, 2, 3, 4}[g.c.Rng.Intn(8)]
+	return model3d.NewCoord3DArray(q), rad
+}
+
+// statSphere3 records how often a sphere query is of the kind where the outer and the inner view differ:
+// the centre outside the outer bounds, the sphere reaching them, and a distance factor above / below 1.
+func (g *gen) statSphere3(kind string, col model3d.Collider, q model3d.Coord3D, rad, orad float64) {
+	boxDist := q.Dist(q.Max(col.Min()).Min(col.Max()))
+	if boxDist == 0 || rad == 0 {
+		return
+	}
+	cls := "same-scale"
+	if orad > rad {
+		cls = "enlarging"
+	} else if orad < rad {
+		cls = "shrinking"
+	}
+	reach := "missing-box"
+	if boxDist <= rad {
+		reach = "reaching-box"
+		if boxDist*orad/rad > rad {
+			// the box distance measured in one space exceeds the radius measured in the other
+			reach = "reaching-box.mixed-units-would-miss"
+		}
+	}
+	g.c.Stat(kind+".outside."+cls+"."+reach, 1)
 }
 
 // emitColl3: one transformed-collider case on a real collider (see run3).
@@ -400,7 +447,11 @@ func (g *gen) emitColl3(x *xf, col model3d.Collider, cname string, ir model3d.Ra
 	// distance between the images of q and of a point r away from it.
 	q := g.inBox3(col.Min().AddScalar(-1), col.Max().AddScalar(1))
 	rad := math.Abs(g.dy())
+	if g.c.Rng.Intn(2) == 0 {
+		q, rad = g.sphereOutside3(col)
+	}
 	orad := t.Apply(q.Add(model3d.X(rad))).Dist(t.Apply(q))
+	g.statSphere3("sphc3", col, q, rad, orad)
 	want := col.SphereCollision(q, rad)
 	c.Stat("sphc3.inner."+bstr(want), 1)
 	c.Emit(fmt.Sprintf("c05 sphc3 %s %s %s %s %s %s", x.tokens(3), p3s(t.Apply(q)), rs(orad), p3s(q), rs(rad), bstr(want)),
